@@ -21,6 +21,7 @@ IsEvent(name) == l <= Len(Traces[tid]) /\ Ev.e = name /\ l' = l + 1 /\ tid' = ti
 
 (* a decompressor comes to life (one per folder; a new one after reset) *)
 New == /\ IsEvent("new")
+       /\ Ev.limit <= 128000000                            \* the extraction chunk never exceeds the documented 128 MB, whatever the machine or its limits say
        /\ block' = Ev.block /\ limit' = Ev.limit /\ buf' = 0 /\ pile' = 0
        /\ UNCHANGED dead
 
